@@ -274,17 +274,17 @@ fn trace_S<T>(seed: u64, make: fn(&Log) -> T, upd: fn(&mut T, &mut Env, &mut Gen
 }
 
 #[allow(non_snake_case)]
-fn trace_M<T>(seed: u64, make: fn(&Log) -> T, upd: fn(&mut T, &mut MarketEnv<2, 3>, &mut Gen)) -> Trace {
+fn trace_M<T, const MM: usize, const NN: usize>(seed: u64, make: fn(&Log) -> T, upd: fn(&mut T, &mut MarketEnv<MM, NN>, &mut Gen)) -> Trace {
     let log: Log = Rc::new(RefCell::new(Vec::new()));
     zlog_set(Some(log.clone()));
     let mut a = make(&log);
     let kind = gen_kind(seed);
     let (ss, pre, twice, seed) = cfg_of(seed);
-    let mut env: MarketEnv<2, 3> = MarketEnv::new(0, [1, 1], ss, true);
+    let mut env: MarketEnv<MM, NN> = MarketEnv::new(0, [1; MM], ss, true);
     let mut rng = ProbeRng::new(kind, seed);
-    let mut go = |a: &mut T, env: &mut MarketEnv<2, 3>, rng: &mut Gen| {
+    let mut go = |a: &mut T, env: &mut MarketEnv<MM, NN>, rng: &mut Gen| {
         for k in 0..pre {
-            env.place_order(k % 2, Side::Bid, 7, 9000 + k as u32, Some(3)).unwrap();
+            env.place_order(k % MM, Side::Bid, 7, 9000 + k as u32, Some(3)).unwrap();
         }
         upd(a, env, rng);
     };
@@ -294,7 +294,7 @@ fn trace_M<T>(seed: u64, make: fn(&Log) -> T, upd: fn(&mut T, &mut MarketEnv<2, 
     }
     env.step(&mut rng);
     go(&mut a, &mut env, &mut rng);
-    let orders = (0..2).map(|x| env.get_orders(x).into_iter().map(OrderRec::of).collect()).collect();
+    let orders = (0..MM).map(|x| env.get_orders(x).into_iter().map(OrderRec::of).collect()).collect();
     let l = log.borrow().clone();
     zlog_set(None);
     Trace { log: l, orders, next_draw: rng.fingerprint() }
@@ -358,7 +358,7 @@ pub fn c20(tier: &str) -> i32 {
     out.set("programs", json!(2 * N_SHAPES));
     out.set("seeds", json!(base_seeds));
     out.set("environment_configurations", json!(cfgs.iter().map(|c| cfg_text(c << 32)).collect::<Vec<_>>()));
-    out.set("rule", json!("every word of length 1..4 over field kinds {A, B, N(ested derived set)} plus 14 shapes of 5..8 fields and 17 shapes holding nested sets of three and five members (larger than the set they sit in), and every word of length 1..3 plus two long shapes re-declared with six syntactic decorations (field attributes incl. #[rustfmt::skip] / #[cfg(all())] / doc comments, struct attributes around the derive, mixed visibilities, type paths and parenthesised types, raw identifiers, a macro_rules! template passing the member types as `ty` fragments), for both derive macros; shapes holding zero-sized members (unit structs) and a nested set made only of such members; run with two generators (the Xoroshiro128** of the library runner and one answering next_u32 / next_u64 / fill_bytes from three independent streams, the probes drawing through all three) under several environment configurations (step sizes 1000, 1, 2, 8; 0, 1 or 3 instructions already waiting in the queue before each update; update-step-update and update-update-step-update); log of (tag, environment fingerprint, draw), final orders and next generator draw compared with the flattened hand-written calls"));
+    out.set("rule", json!("every word of length 1..4 over field kinds {A, B, N(ested derived set)} plus 14 shapes of 5..8 fields and 17 shapes holding nested sets of three and five members (larger than the set they sit in), and every word of length 1..3 plus two long shapes re-declared with six syntactic decorations (field attributes incl. #[rustfmt::skip] / #[cfg(all())] / doc comments, struct attributes around the derive, mixed visibilities, type paths and parenthesised types, raw identifiers, a macro_rules! template passing the member types as `ty` fragments), for both derive macros (the multi-asset one on MarketEnv<2,3> and, for the shapes of up to three members, also on MarketEnv<1,1> and on MarketEnv<3,0> - no published levels at all); shapes holding zero-sized members (unit structs) and a nested set made only of such members; run with two generators (the Xoroshiro128** of the library runner and one answering next_u32 / next_u64 / fill_bytes from three independent streams, the probes drawing through all three) under several environment configurations (step sizes 1000, 1, 2, 8; 0, 1 or 3 instructions already waiting in the queue before each update; update-step-update and update-update-step-update); log of (tag, environment fingerprint, draw), final orders and next generator draw compared with the flattened hand-written calls"));
     for s in samples {
         out.push("samples", s);
     }
